@@ -18,12 +18,13 @@ package main
 //
 // Errors WITHOUT a position: status.AddError turns a non-status error into status.Error{SourceRange{}}
 // ("I/O errors don't originate in source code") and Error.Error() prints such errors without a location
-// (Filename == ""). compiler.Compile does no I/O and is given a non-empty path, and every SourceRange
-// taken from a non-nil ast node carries that path; so a diagnostic with an empty range can only come from a
-// nil origin node. The representation is legal (it is what `status` defines for position-less errors) and
-// trivially in range, but it is not a located diagnostic: such errors are counted
-// (`errors-without-position`) and sampled in the notes, not reported as violations. A NON-empty range
-// whose file name is not the path, or whose line/column are zero, is a violation.
+// (Filename == ""). compiler.Compile does no I/O and is given a non-empty path, and every SourceRange taken
+// from a non-nil ast node carries that path; so a diagnostic with an empty range can only come from a nil
+// origin node, i.e. from a diagnostic anchored at an optional sub-node that is absent. Its line:column 0:0 is
+// NOT the line:column of its offset 0 (1:1) and it does not name the compiled file: a violation of the
+// property ("every diagnostic is in range and its line/column match its offsets"), reported as such
+// (`diagnostic-without-location`). The oracle requires of EVERY diagnostic: file name == the path given to
+// Compile, 0 <= offset <= endoffset <= len(text), line >= 1, column >= 1 and (line, column) == lineCol(offset).
 
 import (
 	"bufio"
@@ -391,6 +392,7 @@ func (w *c22Worker) run(id int, path, content string, limit time.Duration) c22Re
 type c22Input struct {
 	Name  string // seed + mutation description (no blanks)
 	Kind  string // bucket for the distribution
+	Aim   string // directed inputs: substring of the diagnostic format the input is aimed at
 	Text  string
 	Heavy bool // derived from js.tm: long time limit
 	// maperr inputs: the pattern literal and its options
@@ -1200,6 +1202,7 @@ func c22(c *Ctx) {
 		"CHAOS grammars (syntactically valid, semantically arbitrary: random options, start conditions, typed terminals, template flags with arguments and predicates, lookaheads, named and inline sets with first/last/follow/precede and complements, lists with separators, nested choices, optionals, aliases, assignments, mid-rule and final commands, state markers, arrows with flags and selectors, %prec, %inject, %assert, %expect, lalr(k), undefined references), small grammars with option lines of wrong types, grammars with one broken regular expression at a random position (maperr: the harness computes the lex.ParseError with the real lex.ParseRegexp and compares the reported range with the model's translation), and MUTATIONS of all of these (1 operator 50%, 2 30%, 3-6 20%): " +
 		"token deletion / duplication / swap / replacement by another token, byte flips, truncation, insertion of tm punctuation and keywords, unbalanced brackets / quotes / regexps, non-UTF-8 and control bytes, very long lines and deep nesting, option lines with wrong types, line surgery, target language change, wrapping a token into a quantifier / list / set / lookahead / alias, renamed references, newline surgery. " +
 		"Non-trivial = the input got past the tm parser (compiled, or returned located diagnostics, or crashed); distinct by text. A tm.SyntaxError outcome is trivial for the compiler but its range and line are still checked. " +
+		"DIRECTED inputs: for every diagnostic site of compiler/ that the grammar syntax can reach (and several of syntax/ and lalr/) hand-written inputs aimed at it, with the optional sub-nodes of the construct absent and present and redeclarations in both orders, their mutants, and two systematic families (pairs of declarations of one terminal differing in type / ID / attribute / priority / start conditions / command / presence of the pattern, in both orders; pairs of declarations of one nonterminal differing in inline/extend, parameters, alias, type, report clause). Every returned diagnostic is attributed to the most specific Errorf format of compiler/, syntax/, lalr/, lex/ (inventory by go/parser on the tree under test); formats never reached are listed in extra.diagnostic_formats_never_reached. " +
 		"Known crashes are probed on one fixed witness each at start-up and reported through that witness only while the real code still crashes; crashes of the random stream with the same signature (message + frame) are then counted as known-class and not reported again."
 
 	self, err := os.Executable()
@@ -1344,6 +1347,18 @@ func c22(c *Ctx) {
 		t, pat, o := c22RegexGrammar(c.Rng)
 		add(c22Input{Name: fmt.Sprintf("regex%d", i), Kind: "regex", Text: t, Pattern: pat, PatOpts: o, IsMapErr: true})
 	}
+	// diagnostics aimed at: one or more inputs per diagnostic site, optional sub-nodes absent/present, both orders
+	for i, d := range c22DirectedTable() {
+		s := seed{fmt.Sprintf("aim%d", i), d.text, false}
+		add(c22Input{Name: s.name, Kind: "directed", Text: d.text, Aim: d.aim})
+		mutants("mut-directed", s, c.N(1, 8))
+	}
+	for i, d := range c22LexemePairs(c.Rng, c.N(60, 1200)) {
+		add(c22Input{Name: fmt.Sprintf("lexpair%d", i), Kind: "directed-lexeme-pair", Text: d.text})
+	}
+	for i, d := range c22NontermPairs(c.Rng, c.N(40, 800)) {
+		add(c22Input{Name: fmt.Sprintf("ntpair%d", i), Kind: "directed-nonterm-pair", Text: d.text})
+	}
 	// degenerate inputs
 	for i, t := range []string{"", "\n", " ", "language", "language x(go);", "language x(go);\n:: lexer\n", "language x(go);\n:: parser\n", "language x(go);\n:: lexer\n:: parser\n",
 		"language x(go);\n:: lexer\n:: parser\n%input S;\n", "language x(go);\n:: lexer\n:: parser\nS : ;\n", "language x(go);\n:: lexer\na: /a/\n:: parser\nS : S ;\n", "\xef\xbb\xbflanguage x(go);\n:: lexer\na: /a/\n",
@@ -1430,6 +1445,27 @@ func c22(c *Ctx) {
 	var crashOrder []string
 	noPos := 0
 	var slowest int64
+	formats := c22ErrorSites(repo)
+	// violations of the diagnostic oracle, one per (kind, diagnostic format), smallest input
+	type diagViol struct{ what, text string }
+	diagViols := map[string]*diagViol{}
+	var diagOrder []string
+	diagViolate := func(kind string, e c22Err, what, text string) {
+		key := kind + "|" + regexp.MustCompile(`'[^']*'|"[^"]*"|\d+`).ReplaceAllString(e.Msg, "_")
+		if ef := c22Attribute(formats, e.Msg); ef != nil {
+			key = kind + "|" + ef.Format
+		}
+		c.Count(kind)
+		if dv, ok := diagViols[key]; ok {
+			if len(text) < len(dv.text) {
+				dv.what, dv.text = what, text
+			}
+			return
+		}
+		diagViols[key] = &diagViol{what, text}
+		diagOrder = append(diagOrder, key)
+	}
+	var directedMiss []string
 	for i, in := range inputs {
 		res := results[i]
 		if res.Millis > slowest {
@@ -1496,35 +1532,47 @@ func c22(c *Ctx) {
 		c.Case(fmt.Sprintf("outcome %s errors", id), "total", "errors:"+h)
 		var offs, ends, lines, cols []int
 		maxEnd := 0
-		bad := false
+		aimed := in.Aim == ""
 		for _, e := range res.Errs {
-			if e.File == "" && e.Off == 0 && e.End == 0 && e.Line == 0 && e.Col == 0 {
-				noPos++
-				c.Count("errors-without-position")
-				if len(c.Notes) < 6 {
-					c.Notes = append(c.Notes, fmt.Sprintf("diagnostic without position: %q (input %s)", e.Msg, in.Name))
+			if ef := c22Attribute(formats, e.Msg); ef != nil {
+				ef.Hits++
+				if in.Aim != "" && strings.Contains(ef.Format, in.Aim) {
+					aimed = true
 				}
-				continue
+			} else {
+				c.Count("diagnostic-of-no-inventoried-site")
 			}
-			if e.File != c22Path {
-				bad = true
-				c.Violate(fmt.Sprintf("diagnostic %q carries file name %q instead of the path given to Compile", e.Msg, e.File), text)
+			if in.Aim != "" && strings.Contains(e.Msg, in.Aim) {
+				aimed = true
 			}
-			if e.Off < 0 || e.Off > e.End || e.End > len(text) {
-				bad = true
-				c.Count("diagnostic-out-of-range")
-				c.Violate(fmt.Sprintf("diagnostic %q has range [%d,%d) outside the text (%d bytes)", e.Msg, e.Off, e.End, len(text)), text)
-			} else if l, col := c22LineCol(text, e.Off); l != e.Line || col != e.Col {
-				bad = true
-				c.Count("diagnostic-line-column-mismatch")
-				c.Violate(fmt.Sprintf("diagnostic %q reports %d:%d for offset %d, which is at %d:%d", e.Msg, e.Line, e.Col, e.Off, l, col), text)
+			switch {
+			case e.File == "" && e.Off == 0 && e.End == 0 && e.Line == 0 && e.Col == 0:
+				noPos++
+				diagViolate("diagnostic-without-location", e, fmt.Sprintf("diagnostic %q has no location: empty file name, range [0,0), line:column 0:0 (offset 0 is at 1:1) — it is anchored at a syntax node that is absent", e.Msg), text)
+			case e.File != c22Path:
+				diagViolate("diagnostic-wrong-file", e, fmt.Sprintf("diagnostic %q carries file name %q instead of the path given to Compile", e.Msg, e.File), text)
+			case e.Off < 0 || e.Off > e.End || e.End > len(text):
+				diagViolate("diagnostic-out-of-range", e, fmt.Sprintf("diagnostic %q has range [%d,%d) outside the text (%d bytes)", e.Msg, e.Off, e.End, len(text)), text)
+			case e.Line < 1 || e.Col < 1:
+				diagViolate("diagnostic-line-column-mismatch", e, fmt.Sprintf("diagnostic %q reports %d:%d; lines and columns are 1-based", e.Msg, e.Line, e.Col), text)
+			default:
+				if l, col := c22LineCol(text, e.Off); l != e.Line || col != e.Col {
+					diagViolate("diagnostic-line-column-mismatch", e, fmt.Sprintf("diagnostic %q reports %d:%d for offset %d, which is at %d:%d", e.Msg, e.Line, e.Col, e.Off, l, col), text)
+				}
 			}
 			offs, ends, lines, cols = append(offs, e.Off), append(ends, e.End), append(lines, e.Line), append(cols, e.Col)
 			if e.End > maxEnd {
 				maxEnd = e.End
 			}
 		}
-		_ = bad
+		if in.Kind == "directed" {
+			if aimed {
+				c.Count("directed-reached-its-site")
+			} else {
+				c.Count("directed-missed-its-site")
+				directedMiss = append(directedMiss, in.Name+" ("+in.Aim+")")
+			}
+		}
 		if len(offs) > 0 {
 			if maxEnd > len(text) || maxEnd < 0 {
 				maxEnd = len(text)
@@ -1534,6 +1582,9 @@ func c22(c *Ctx) {
 					maxEnd = o
 				}
 			}
+			if len(text) <= 8192 {
+				maxEnd = len(text) // small inputs are sent whole (the case line then identifies the grammar)
+			}
 			c.Case(fmt.Sprintf("diag %d %s %s %s", len(text), hexs([]byte(text[:maxEnd])), c22Ints(offs), c22Ints(ends)), c22Ints(lines)+" "+c22Ints(cols), "")
 		}
 		if in.IsMapErr {
@@ -1542,6 +1593,36 @@ func c22(c *Ctx) {
 	}
 	c.Extra["slowest_input_ms"] = slowest
 	c.Extra["errors_without_position"] = noPos
+	for _, key := range diagOrder {
+		dv := diagViols[key]
+		c.Violate(dv.what, dv.text)
+	}
+	// directed inputs whose outcome was not "errors" at all
+	for i, in := range inputs {
+		if in.Kind == "directed" && results[i].Kind != "errors" && results[i].CrashKind == "" {
+			c.Count("directed-missed-its-site")
+			directedMiss = append(directedMiss, in.Name+" ("+in.Aim+": outcome "+results[i].Kind+")")
+		}
+	}
+	sort.Strings(directedMiss)
+	c.Extra["directed_missed"] = directedMiss
+	// which diagnostic sites were reached
+	var unhit []string
+	nSites, nSitesHit := 0, 0
+	for _, ef := range formats {
+		nSites += len(ef.Sites)
+		if ef.Hits > 0 {
+			nSitesHit += len(ef.Sites)
+			c.Count("diagnostic-formats-reached")
+		} else {
+			c.Count("diagnostic-formats-never-reached")
+			unhit = append(unhit, strings.Join(ef.Sites, ",")+" "+strconv.Quote(ef.Format))
+		}
+	}
+	c.Extra["diagnostic_formats"] = len(formats)
+	c.Extra["diagnostic_sites"] = nSites
+	c.Extra["diagnostic_sites_in_reached_formats"] = nSitesHit
+	c.Extra["diagnostic_formats_never_reached"] = unhit
 
 	// ---- report new crashes (smallest input per signature, shrunk)
 	shrinker := &c22Worker{self: self}
